@@ -287,19 +287,30 @@ theorem wake_before_max {s : State} {x : Sub} (hx : x ∈ s.subs) (ev : Nat)
 
 /-- one maximum interval after its last delivered report a subscription is expired -/
 theorem failing_sub_expires_by_max (hz : Nat) (x : Sub) (now : Nat) (hnow : now ≤ IMAX)
-    (h : x.reportedAt + x.maxInt * hz ≤ now) : x.isExpired hz now = true := by
+    (hp : x.reportedAt ≠ IMAX) (h : x.reportedAt + x.maxInt * hz ≤ now) : x.isExpired hz now = true := by
   have : x.reportedAt + x.maxInt * hz ≤ IMAX := by omega
-  simp [Sub.isExpired, checkedAdd, this, h]
+  simp [Sub.isExpired, checkedAdd, this, h, hp]
 
-example : ∃ x : Sub, x.reportedAt + x.maxInt * 1000000 ≤ 70000000 :=
+/-- a subscription resumed after a restart that has not been primed since is expired one maximum
+interval after the resume instant (its last success was not later than that) -/
+theorem resumed_expires_by_max (hz : Nat) (x : Sub) (now : Nat) (hnow : now ≤ IMAX)
+    (hu : x.reportedAt = IMAX) (h : x.resumedAt + x.maxInt * hz ≤ now) : x.isExpired hz now = true := by
+  have : x.resumedAt + x.maxInt * hz ≤ IMAX := by omega
+  simp [Sub.isExpired, checkedAdd, this, h, hu]
+
+example : ∃ x : Sub, x.reportedAt ≠ IMAX ∧ x.reportedAt + x.maxInt * 1000000 ≤ 70000000 :=
   ⟨{ id := 1, fab := 1, peer := 1, minInt := 1, maxInt := 60, reportedAt := 0, retryAt := 0, fail := 0,
-     seenAttr := 0, seenEv := 0 }, by decide⟩
+     seenAttr := 0, seenEv := 0 }, by decide, by decide⟩
+
+example : ∃ x : Sub, x.reportedAt = IMAX ∧ x.resumedAt + x.maxInt * 1000000 ≤ 70000000 :=
+  ⟨{ id := 1, fab := 1, peer := 1, minInt := 1, maxInt := 60, reportedAt := IMAX, retryAt := 0, fail := 0,
+     seenAttr := 0, seenEv := 0, resumedAt := 5000000 }, by decide, by decide⟩
 
 /-- failed attempts do not postpone the expiry: `set_keep_retry` leaves `reported_at` and
 `max_int` alone, so `is_expired` answers the same before and after any number of retries -/
 theorem retry_preserves_expiry (hz : Nat) (c : Ctx) (now : Nat) :
     (c.setKeepRetry hz).commit.isExpired hz now = c.sub.isExpired hz now := by
-  simp [Sub.isExpired, Ctx.setKeepRetry, Ctx.commit]
+  rfl
 
 /-- the expiry sweep of the reporter loop leaves no expired subscription in the table -/
 theorem expiry_sweep_removes (s : State) (now : Nat) :
@@ -545,13 +556,32 @@ theorem retry_keeps_debt (hz : Nat) (c : Ctx) (i : Nat) (h : c.sub.seenAttr < i)
     (finSub hz c .retry).reportedAt = c.sub.reportedAt := by
   simp [finSub, Ctx.commit, Ctx.setKeepRetry, h]
 
-/-- **Where the fairness clause `primes` is needed**: a subscription that is not primed (resumed from
-the persisted records after a restart) is never expired, whatever the instant, and a failed report
-leaves it un-primed — so if its subscriber is gone for good it is retried for ever. -/
-theorem resumed_never_expires (hz : Nat) (x : Sub) (now : Nat) (hu : x.reportedAt = IMAX)
+/-- **Where the fairness clause `primes` is needed, and only there**: a subscription that has neither
+a last success nor a resume instant (it was just added, its priming is in progress) is never expired,
+and a `set_keep_retry` (which `subscribe()` never calls on a priming context) would keep it so. -/
+theorem priming_never_expires (hz : Nat) (x : Sub) (now : Nat) (hu : x.expiryBase = IMAX)
     (hm : 0 < x.maxInt * hz) : x.isExpired hz now = false := by
   have : ¬ (IMAX + x.maxInt * hz ≤ IMAX) := by omega
+  unfold Sub.expiryBase at hu
   simp [Sub.isExpired, checkedAdd, hu, this]
+
+theorem retry_keeps_expiry_base (hz : Nat) (c : Ctx) :
+    (finSub hz c .retry).expiryBase = c.sub.expiryBase := by
+  rfl
+
+/-- before the repair `fix: a resumed subscription expires one maximum interval after the restart`
+`is_expired` measured from `reported_at` only: a resumed subscription (`reported_at = Instant::MAX`)
+was never expired, and a failed report leaves it un-primed — with its subscriber gone for good it was
+retried, and persisted again, for ever (finding `C13-resumed-never-expires`) -/
+def isExpiredOld (hz : Nat) (s : Sub) (now : Nat) : Bool :=
+  match checkedAdd s.reportedAt (s.maxInt * hz) with
+  | some e => decide (e ≤ now)
+  | none => false
+
+theorem resumed_never_expired_before_fix (hz : Nat) (x : Sub) (now : Nat) (hu : x.reportedAt = IMAX)
+    (hm : 0 < x.maxInt * hz) : isExpiredOld hz x now = false := by
+  have : ¬ (IMAX + x.maxInt * hz ≤ IMAX) := by omega
+  simp [isExpiredOld, checkedAdd, hu, this]
 
 theorem retry_keeps_unprimed (hz : Nat) (c : Ctx) (hu : c.sub.reportedAt = IMAX) :
     (finSub hz c .retry).reportedAt = IMAX := by
@@ -572,7 +602,7 @@ its retry gate allows: `unprimed_is_due`, and its next report selects every attr
 `State.shouldReportAttr` is `true`), nothing is in flight, the change table is empty and the
 invariants hold again -/
 theorem restart_resumes (s : State) (now ev : Nat) :
-    (∀ x ∈ (s.restart now ev).subs, x.reportedAt = IMAX ∧ x.retryAt = 0) ∧
+    (∀ x ∈ (s.restart now ev).subs, x.reportedAt = IMAX ∧ x.retryAt = 0 ∧ x.resumedAt = now) ∧
     (s.restart now ev).ctxs = [] ∧ (s.restart now ev).changed = Changed.new ∧
     (s.restart now ev).log = [] ∧ (s.restart now ev).epoch = s.epoch + 1 ∧
     WF (s.restart now ev) ∧ Cov (s.restart now ev) ∧ UID (s.restart now ev) := by
@@ -581,7 +611,7 @@ theorem restart_resumes (s : State) (now ev : Nat) :
   · intro x hx
     rw [restart_eq] at hx
     have := resumeAll_subs now ev (s.kv.take s.n) s.fresh (by simp [State.fresh, State.new]) x hx
-    exact ⟨this.1, this.2.1⟩
+    exact ⟨this.1, this.2.1, this.2.2.2⟩
   · rw [restart_eq, (resumeAll_changed now ev _ _).2.1]; rfl
   · rw [restart_eq, (resumeAll_changed now ev _ _).2.2.1]; rfl
 
@@ -596,7 +626,7 @@ theorem resumed_reports_everything (s : State) (now ev t : Nat) (x : Sub)
     (hx : x ∈ (s.restart now ev).subs) (es : List Entry) (ev' : Nat) :
     x.isReportable (s.restart now ev).hz t es ev' = true ∧
     ∀ c : Ctx, c.sub = x → ∀ ep cl attr, (s.restart now ev).shouldReportAttr c ep cl attr = true := by
-  obtain ⟨h1, h2⟩ := (restart_resumes s now ev).1 x hx
+  obtain ⟨h1, h2, _⟩ := (restart_resumes s now ev).1 x hx
   refine ⟨unprimed_is_due _ x t es ev' h1 (by omega), ?_⟩
   intro c hc ep cl attr
   simp [State.shouldReportAttr, hc, h1]
@@ -695,7 +725,7 @@ theorem fS_ge (k : Nat) (h : 6 ≤ k) : fS k = fS 6 := by
   have := fS_const (k - 6)
   rwa [show 6 + (k - 6) = k by omega] at this
 
-theorem fair_primed (k : Nat) (h : 2 ≤ k) : ∀ x ∈ (fS k).live, x.reportedAt ≠ IMAX := by
+theorem fair_primed (k : Nat) (h : 2 ≤ k) : ∀ x ∈ (fS k).live, x.expiryBase ≠ IMAX := by
   match k, h with
   | 2, _ => decide
   | 3, _ => decide
@@ -703,7 +733,7 @@ theorem fair_primed (k : Nat) (h : 2 ≤ k) : ∀ x ∈ (fS k).live, x.reportedA
   | 5, _ => decide
   | k + 6, _ => rw [fS_ge (k + 6) (by omega)]; decide
 
-theorem fair_horizon (k : Nat) : ∀ x ∈ (fS k).live, x.reportedAt + x.maxInt * 1000000 < IMAX ∨ x.reportedAt = IMAX := by
+theorem fair_horizon (k : Nat) : ∀ x ∈ (fS k).live, x.expiryBase + x.maxInt * 1000000 < IMAX ∨ x.expiryBase = IMAX := by
   match k with
   | 0 => decide
   | 1 => decide
